@@ -316,6 +316,7 @@ type Stats struct {
 	ContendedPoints int // points with >1 enabled thread, summed over executions
 	BoundCompleted  int
 	Capped          bool
+	NewPoints       int // scheduling points executed beyond the replayed prefix = edges of the explored schedule tree
 }
 
 // Explorer is the iterative context-bounding DFS.
@@ -373,6 +374,7 @@ func (e *Explorer) explore(prefix []int) bool {
 			e.Stats.ContendedPoints++
 		}
 	}
+	e.Stats.NewPoints += len(x.Points) - len(prefix)
 	msg := ""
 	if x.Panic != "" {
 		msg = "panic: " + x.Panic
